@@ -350,9 +350,19 @@ def check_rekeying(ctx, mods) -> None:
                         dexpr = v.func.value
                     else:
                         continue
-                    if source.src(st.targets[0].value) != source.src(dexpr):
-                        continue
                     key = st.targets[0].slice
+                    if source.src(st.targets[0].value) != source.src(dexpr):
+                        # copied into ANOTHER mapping under a key computed from k (T[int(k[5:])] = S[k], possibly through a local of the
+                        # loop body): two keys of S that the computation maps to one key of T collide the same way
+                        kexpr = key
+                        if isinstance(key, ast.Name) and key.id != k:
+                            defs_ = [a.value for a in ast.walk(lp) if isinstance(a, ast.Assign) and any(isinstance(t_, ast.Name) and t_.id == key.id for t_ in a.targets)]
+                            kexpr = defs_[0] if len(defs_) == 1 else None
+                        derived = kexpr is not None and not isinstance(kexpr, ast.Name) and any(isinstance(x, ast.Name) and x.id == k for x in ast.walk(kexpr)) \
+                            and any(isinstance(x, (ast.Call, ast.Subscript)) for x in ast.walk(kexpr))
+                        if derived and isinstance(v, ast.Subscript):
+                            hits.append((st, source.src(dexpr)))
+                        continue
                     # the new key: k.lower() and the like, or any function of k alone (stage_identifier_to_stage_index(k))
                     if isinstance(key, ast.Call) and ((isinstance(key.func, ast.Attribute) and key.func.attr in NORMALISERS
                                                        and isinstance(key.func.value, ast.Name) and key.func.value.id == k)
@@ -403,7 +413,19 @@ def list_order_effect(e: ast.AST) -> Optional[str]:
                 return (f, None)
             if base in ("sorted", "set", "frozenset"):
                 return (flipped, "a set or a sort")
+            # {key(p): p for p in L}.values() / .keys(): assigning a key a second time replaces the VALUE but keeps the key at its first
+            # position - a de-duplication that keeps the first occurrence
+            if isinstance(x.func, ast.Attribute) and x.func.attr in ("values", "keys", "items") and isinstance(x.func.value, ast.DictComp):
+                return walk(x.func.value, flipped)
             return (flipped, None)
+        if isinstance(x, ast.DictComp) and x.generators:
+            f, r = walk(x.generators[0].iter, flipped)
+            if r:
+                return (f, r)
+            if not f:
+                return (f, "a dictionary keyed by the file keeps a repeated file at its FIRST position (a second assignment replaces the value, not "
+                           "the place): for [a, b, a] the files are layered as [a, b], so b wins although a was given last")
+            return (f, None)
         if isinstance(x, ast.Subscript) and isinstance(x.slice, ast.Slice) and x.slice.lower is None and x.slice.upper is None \
                 and isinstance(x.slice.step, ast.UnaryOp) and isinstance(x.slice.step.op, ast.USub) \
                 and isinstance(x.slice.step.operand, ast.Constant) and x.slice.step.operand.value == 1:
